@@ -157,3 +157,29 @@ func ValueHasCustomFolder(v reflect.Value) bool {
 	}
 	return false
 }
+
+// one named type per primitive kind (folded / unfolded through the kind-based reflection paths)
+type (
+	SeedMyBool bool
+	SeedMyU    uint
+	SeedMyU8   uint8
+	SeedMyU16  uint16
+	SeedMyU32  uint32
+	SeedMyU64  uint64
+	SeedMyI8   int8
+	SeedMyI16  int16
+	SeedMyI32  int32
+	SeedMyI64  int64
+	SeedMyF32  float32
+	SeedMyF64  float64
+)
+
+// NamedScalarTypes returns the named primitive types (one per kind).
+func NamedScalarTypes() []FieldType {
+	return []FieldType{
+		{"SeedMyBool", reflect.TypeOf(SeedMyBool(false))}, {"SeedMyInt", reflect.TypeOf(SeedMyInt(0))}, {"SeedMyStr", reflect.TypeOf(SeedMyStr(""))},
+		{"SeedMyU", reflect.TypeOf(SeedMyU(0))}, {"SeedMyU8", reflect.TypeOf(SeedMyU8(0))}, {"SeedMyU16", reflect.TypeOf(SeedMyU16(0))}, {"SeedMyU32", reflect.TypeOf(SeedMyU32(0))},
+		{"SeedMyU64", reflect.TypeOf(SeedMyU64(0))}, {"SeedMyI8", reflect.TypeOf(SeedMyI8(0))}, {"SeedMyI16", reflect.TypeOf(SeedMyI16(0))}, {"SeedMyI32", reflect.TypeOf(SeedMyI32(0))},
+		{"SeedMyI64", reflect.TypeOf(SeedMyI64(0))}, {"SeedMyF32", reflect.TypeOf(SeedMyF32(0))}, {"SeedMyF64", reflect.TypeOf(SeedMyF64(0))},
+	}
+}
